@@ -22,6 +22,10 @@ for prop in props:
         fid, what = rc[key]
         if prop == 'C04' and 'spend-without-live-grant' in s:
             fid, what = 'F8', "consequence of F8: an allowance granted by a precompile call inside a frame that was then reverted stays in the authz store and is spent by a later call of the same transaction"
+        if prop == 'C04' and 'unauthorized-call-reported-failure' in s:
+            fid, what = 'F15', "F15 seen from C04: a staking spend by a contract whose grant does not cover the validator is executed before the allow-list is checked; the call reports failure but the delegation change stays - the contract acted outside its grant"
+        if prop == 'C05' and 'supply+mods' in s:
+            fid, what = 'F8', "F8 with value sent along with a precompile call: the Flush before the (non-payable) precompile mints the amount for the precompile address, cannot deliver it to that blocked address and fails - the minted coins stay in the evm module account although the call failed and the journal was rolled back"
         if 'random-tree' in s:
             what = "random call tree (a behaviour of specs/EvmCosmosRand.tla) whose recorded post-state is exactly what the as-built machine of specs/EvmCosmos.tla predicts through its named defect mechanisms; root cause: " + what
         if 'as-built=NO' in s:
